@@ -312,3 +312,23 @@ pub proof fn lemma_maps_a(types: &PortableRegistry, dr: &DerivesRegistry, s0: Se
     }
     lemma_list_same(types, l, reg_seq_a(s0, n), reg_both_a(dr));
 }
+
+// ---- implication forms for the START of the loop bodies: an element whose path is known changes nothing, so the
+// invariant for the next position is in the context however the body skips it (`if`, early `continue`, ...)
+pub proof fn lemma_skip_if_known(types: &PortableRegistry, ld: Seq<(SynPath, HSet<SynPath>)>, la: Seq<(SynPath, HSet<SynAttribute>)>, s: Seq<(SynTypePath, Derives)>, n: int)
+    requires 0 <= n < s.len(), list_ok(types, ld, reg_seq_d(s, n)), list_ok(types, la, reg_seq_a(s, n)),
+    ensures !unknown_path(types, s[n].0.path) ==> list_ok(types, ld, reg_seq_d(s, n + 1)) && list_ok(types, la, reg_seq_a(s, n + 1)),
+{
+    if !unknown_path(types, s[n].0.path) {
+        lemma_seq_step_d(s, n);
+        lemma_seq_step_a(s, n);
+        lemma_step(types, ld, ld, reg_seq_d(s, n), reg_seq_d(s, n + 1), s[n].0.path, s[n].1.derives@, false);
+        lemma_step(types, la, la, reg_seq_a(s, n), reg_seq_a(s, n + 1), s[n].0.path, s[n].1.attributes@, false);
+    }
+}
+pub proof fn lemma_subs_skip_if_known(types: &PortableRegistry, l: Seq<(SynPath, SynPath)>, s: Seq<(Vec<String>, Substitute)>, n: int)
+    requires 0 <= n < s.len(), subs_seq_ok(types, l, s, n),
+    ensures !unknown_key(types, key_of(s[n].0)) ==> subs_seq_ok(types, l, s, n + 1),
+{
+    if !unknown_key(types, key_of(s[n].0)) { lemma_subs_step(types, l, l, s, n); }
+}
